@@ -384,4 +384,134 @@ example : ∃ s, Reachable (fun t => t) true 3 s ∧ s.pc 0 = .doneOk 3 ∧ s.re
     later_append_succeeds (fun t => t) 3 (init 3) r0 (by intro t; simp [init, owns]) 0 (by simp [init])
   exact ⟨s6, runThread_reachable (fun t => t) 3 0 6 _ _ r0 e6, by simpa [init] using p6, by simpa [init] using r6⟩
 
+/-! ### other users of the same locks: descriptor numbers and fallback writers (round 4) -/
+
+/-- read from the source on every run, for every function of the repository that takes one of the
+locks: the deferred unlock is given the locked file's own descriptor, and the file is closed only
+after that unlock has run (`defer file.Close()` registered first, no explicit Close while the unlock is
+pending). -/
+theorem source_unlock_before_close : unlockBeforeCloseOf Gen.Lock.lockClose = true := by decide
+
+/-- read from the source on every run, for every call of cmsys.AppendRecord in the repository: the
+caller hands the error on or drops it (or calls AppendRecord again) — none writes the record by
+another route. -/
+theorem source_append_callers_no_bypass : noBypassOf Gen.Lock.appendCallers = true := by decide
+
+/-- the facts talk about the same functions: every lock user has its close-order verdict. -/
+theorem source_lock_users_covered :
+    Gen.Lock.lockClose.map (·.1) = Gen.Lock.lockUsers.map (·.1) := by decide
+
+variable (procU : Nat → Nat)
+
+/-- with the discipline the two facts establish, the system with descriptor numbers, other lock users
+and their unlocks is — for the appenders — exactly the system of the theorems above: every reachable
+state's appender part is `Reachable`. -/
+theorem disciplined_reachable (x : XSys) (h : XReachable proc procU true disciplined n0 x) :
+    Reachable proc true n0 x.sys :=
+  (xreachable_disciplined proc procU n0 x h).2
+
+/-- no foreign unlock is reachable: whenever a lock user is about to issue its unlock, the number it
+passes names its own open description (so `unlockNum` cannot touch an appender's flock). -/
+theorem no_foreign_unlock (x : XSys) (h : XReachable proc procU true disciplined n0 x) (u n : Nat)
+    (hu : x.upc u = .opened n) :
+    x.names (procU u) n = some (.usr u) ∧ unlockNum x (procU u) n = x := by
+  have mine := (xreachable_disciplined proc procU n0 x h).1.usr_names u n (Or.inl hu)
+  exact ⟨mine, by simp [unlockNum, mine]⟩
+
+/-- … and no unlock is ever pending on a closed file, no fallback write ever starts. -/
+theorem disciplined_no_stale (x : XSys) (h : XReachable proc procU true disciplined n0 x) :
+    (∀ u n, x.upc u ≠ .closed n) ∧ ∀ t, x.byp t = .idle :=
+  ⟨(xreachable_disciplined proc procU n0 x h).1.no_closed, (xreachable_disciplined proc procU n0 x h).1.byp_idle⟩
+
+/-- so all the theorems stand in the presence of the other lock users; the two the seeds break: -/
+theorem disciplined_distinct_indices (x : XSys) (h : XReachable proc procU true disciplined n0 x) (t u i : Nat)
+    (ht : wroteAt (x.sys.pc t) = some i) (hu : wroteAt (x.sys.pc u) = some i) : t = u :=
+  distinct_indices proc n0 x.sys (disciplined_reachable proc n0 procU x h) t u i ht hu
+
+theorem disciplined_final_length (x : XSys) (h : XReachable proc procU true disciplined n0 x) :
+    ∃ ws : List Nat, x.sys.recs.length = n0 + ws.length ∧ ws.Nodup ∧
+      ∀ t, t ∈ ws ↔ (wroteAt (x.sys.pc t)).isSome = true :=
+  final_length proc n0 x.sys (disciplined_reachable proc n0 procU x h)
+
+theorem xexec_reachable (cl : Bool) (d : Disc) : ∀ (as : List XAct) (x x' : XSys),
+    XReachable proc procU cl d n0 x → xexec proc procU cl d as x = some x' → XReachable proc procU cl d n0 x' := by
+  intro as
+  induction as with
+  | nil => intro x x' r e; simp [xexec] at e; subst e; exact r
+  | cons a as ih =>
+    intro x x' r e
+    simp only [xexec] at e
+    cases hs : xstep proc procU cl d x a with
+    | none => rw [hs] at e; simp at e
+    | some x1 => rw [hs] at e; exact ih x1 x' (.step a r hs) e
+
+/-- the history a close-before-unlock lock user makes possible (appender 0 and lock user 0 in process
+0, appender 1 in process 1): the user opens its file as number 3 and closes it; appender 0's
+OpenFile is handed number 3, it takes the flock and reads the length; the user's deferred unlock of
+number 3 drops appender 0's flock; appender 1 locks, reads the same length, writes, returns;
+appender 0 writes the same slot and returns. -/
+def foreignHistory : List XAct :=
+  [.uopen 0 3, .uclose 0, .aopen 0 3, .st 0, .st 0, .st 0, .uunlock 0,
+   .aopen 1 3, .st 1, .st 1, .st 1, .st 1, .st 1, .st 1, .st 0, .st 0, .st 0]
+
+def closeFirstDisc : Disc := { closeFirst := true, bypass := false }
+
+def foreignState : XSys :=
+  (xexec (fun t => t % 2) (fun _ => 0) true closeFirstDisc foreignHistory (xinit 0)).getD (xinit 0)
+
+theorem foreignState_eq :
+    xexec (fun t => t % 2) (fun _ => 0) true closeFirstDisc foreignHistory (xinit 0) = some foreignState := by
+  have : ∀ o : Option XSys, o.isSome = true → o = some (o.getD (xinit 0)) := by
+    intro o h; cases o <;> simp at h ⊢
+  exact this _ (by decide)
+
+/-- the negation with ONE foreign unlock: both calls return index 1 (slot 0), the file holds one record
+for two successful calls, and it is not call 1's. -/
+theorem foreign_unlock_double_assign :
+    XReachable (fun t => t % 2) (fun _ => 0) true closeFirstDisc 0 foreignState ∧
+      foreignState.sys.pc 0 = .doneOk 0 ∧ foreignState.sys.pc 1 = .doneOk 0 ∧
+      foreignState.sys.recs = [some 0] := by
+  refine ⟨?_, by decide, by decide, by decide⟩
+  exact xexec_reachable (fun t => t % 2) 0 (fun _ => 0) true closeFirstDisc foreignHistory (xinit 0) _ .init foreignState_eq
+
+/-- the same history is not executable under the discipline: the user's close before its unlock is refused. -/
+example : xexec (fun t => t % 2) (fun _ => 0) true disciplined foreignHistory (xinit 0) = none := by decide
+
+/-- the history a fallback writer makes possible (one process): call 0 holds the lock and has read the
+length; call 1 gets ErrPttLock, counts the records without the lock, stores at that slot and reports
+success; call 0 writes the same slot. -/
+def bypassHistory : List XAct :=
+  [.aopen 0 3, .st 0, .st 0, .st 0, .aopen 1 4, .st 1, .aclose 1, .bread 1, .bstore 1, .st 0, .st 0, .st 0]
+
+def bypassDisc : Disc := { closeFirst := false, bypass := true }
+
+def bypassState : XSys :=
+  (xexec (fun _ => 0) (fun _ => 0) true bypassDisc bypassHistory (xinit 0)).getD (xinit 0)
+
+theorem bypassState_eq :
+    xexec (fun _ => 0) (fun _ => 0) true bypassDisc bypassHistory (xinit 0) = some bypassState := by
+  have : ∀ o : Option XSys, o.isSome = true → o = some (o.getD (xinit 0)) := by
+    intro o h; cases o <;> simp at h ⊢
+  exact this _ (by decide)
+
+/-- the negation with a fallback writer: two calls report success for slot 0, the file holds one
+record, and it is not call 1's. -/
+theorem bypass_shares_slot :
+    XReachable (fun _ => 0) (fun _ => 0) true bypassDisc 0 bypassState ∧
+      bypassState.sys.pc 0 = .doneOk 0 ∧ bypassState.byp 1 = .stored 0 ∧
+      bypassState.sys.recs = [some 0] := by
+  refine ⟨?_, by decide, by decide, by decide⟩
+  exact xexec_reachable (fun _ => 0) 0 (fun _ => 0) true bypassDisc bypassHistory (xinit 0) _ .init bypassState_eq
+
+/-- without the fallback the same calls end with call 1 refused and one record for one success. -/
+example : ((xexec (fun _ => 0) (fun _ => 0) true disciplined
+    [.aopen 0 3, .st 0, .st 0, .st 0, .aopen 1 4, .st 1, .aclose 1, .st 0, .st 0, .st 0] (xinit 0)).map
+      (fun x => (x.sys.pc 0, x.sys.pc 1, x.sys.recs))) = some (.doneOk 0, .doneErr, [some 0]) := by decide
+
+/-! non-vacuity of the disciplined system: a lock user runs open → unlock → close beside an appender
+that is handed the user's old number afterwards; the appender's part is the plain run. -/
+example : ((xexec (fun _ => 0) (fun _ => 0) true disciplined
+    [.uopen 0 3, .uunlock 0, .uclose 0, .aopen 0 3, .st 0, .st 0, .st 0, .st 0, .st 0, .st 0, .aclose 0] (xinit 1)).map
+      (fun x => (x.sys.pc 0, x.sys.recs, x.upc 0, x.names 0 3))) = some (.doneOk 1, [none, some 0], .done, none) := by decide
+
 end PttVerif.C14.Props
